@@ -585,7 +585,22 @@ class Facts:
         return [f for f in self.fns if f.name == name and f.impl_trait and re.search(trait_re, f.impl_trait)]
 
     def closures_of(self, f):
-        return [g for g in self.fns if g.kind == "Closure" and g.path.startswith(f.path + "::{closure")]
+        """closures written in f -- or in a helper that was inlined into f (the inlined body builds and calls them)"""
+        owners = {f.path}
+        pairs = getattr(self, "inlined_pairs", None) or []
+        grew = True
+        while grew:
+            grew = False
+            for caller, callee in pairs:
+                if caller in owners and callee not in owners:
+                    owners.add(callee)
+                    grew = True
+        src = self.orig.fns if getattr(self, "orig", None) is not None else self.fns
+        seen = {}
+        for g in list(self.fns) + list(src):
+            if g.kind == "Closure" and any(g.path.startswith(o + "::{closure") for o in owners):
+                seen.setdefault(g.path, g)
+        return list(seen.values())
 
     # ---- call graph over crate-local functions
     def callgraph(self):
